@@ -443,6 +443,10 @@ def run(prog, rep, tier):
                    'the number of bytes copied from the source is never compared with the announced length: a source that ends early is reported as success and yields an unreadable archive',
                    dump.loc(c.idx))
 
+    # ---------------- R09.6 "every sequence whose calls all succeeded ends in a readable archive": no adaptor discards an error of the destination (= R20.7)
+    from .c20 import discarded_sink_errors
+    discarded_sink_errors(prog, rep, 'R09.6')
+
     # ---------------- R09.5 run bookkeeping: current_id names the file of the block written last
     r09_5(prog, rep)
 
